@@ -334,6 +334,15 @@ func (c *WSClient) SendPacket(p Pkt, frags []int) error {
 	return c.SendMessage(fr, frags)
 }
 
+// deflatedLen: the payload length of data as one compressed message (see SendPacketDeflated).
+func deflatedLen(data []byte) int {
+	var buf bytes.Buffer
+	fw, _ := flate.NewWriter(&buf, flate.BestCompression)
+	fw.Write(data)
+	fw.Flush()
+	return buf.Len() - 4
+}
+
 // Negotiated reports whether the server accepted permessage-deflate for this connection.
 func (c *WSClient) Negotiated() bool { return c.negotiated }
 
